@@ -160,6 +160,16 @@ Theorem C05_wf_counts_of_positive_tiles :
 Proof. exact wf_counts_of_pos. Qed.
 Print Assumptions C05_wf_counts_of_positive_tiles.
 
+(** per-plane stream tidx(sample_idx=s): plane s fills the contiguous flat slots
+    [s*ny*nx, (s+1)*ny*nx) in order *)
+Theorem C05_tidx_plane_in_flat_order :
+  forall m s, wf_counts m -> 0 <= s < num_planes m ->
+    map (flat_tile_idx m) (tidx_plane m s) =
+    map (fun j => Ok (s * (fst (chunked m) * snd (chunked m)) + j))
+        (CogLayout.zrange (fst (chunked m) * snd (chunked m))).
+Proof. exact tidx_plane_flat_order. Qed.
+Print Assumptions C05_tidx_plane_in_flat_order.
+
 Theorem C05_cog_tidx_enumerates_once :
   forall mm, NoDup (cog_tidx mm) /\ forall t, In t (cog_tidx mm) <-> valid_tile mm t.
 Proof. exact cog_tidx_enumerates_once. Qed.
